@@ -1,6 +1,7 @@
 package workers
 
 import (
+	"h2v/hpackref"
 	"fmt"
 	"math/rand"
 	"strings"
@@ -70,8 +71,12 @@ func TestC02(t *testing.T) {
 			continue
 		}
 		r.Progress(id, "")
-		if vf.Hash("c02-family", id)%25 == 0 {
+		switch vf.Hash("c02-family", id) % 25 {
+		case 0:
 			c02IDSpace(r, t, id, r.Rand(id))
+			continue
+		case 1, 2:
+			c02Cancelled(r, t, id, r.Rand(id))
 			continue
 		}
 		c02Scenario(r, t, id, r.Rand(id))
@@ -418,4 +423,105 @@ func describeCli(reqs []*cliReq) []map[string]any {
 			"status": q.Status, "resp_fields": fmtFields(q.RespFields), "resp_trailers": fmtFields(q.RespTrail), "resp_body_len": len(q.RespBody), "splits": q.SplitSeed, "pad": q.PadLen, "chunks": q.Chunks, "pads": q.Pads})
 	}
 	return out
+}
+
+// c02Cancelled: some callers give their requests up (Cancel) while the responses are on their way; the server, which has
+// not seen the RST_STREAM yet, answers everything. The header blocks of the responses nobody waits for still feed the
+// connection's HPACK table: the responses of the other callers refer to entries those blocks inserted, and each of those
+// callers gets exactly its own fields.
+func c02Cancelled(r *vf.Run, t *testing.T, id string, rng *rand.Rand) {
+	k := 4 + rng.Intn(5)
+	reqs := make([]*cliReq, k)
+	cancelled := map[int]bool{}
+	for i := range reqs {
+		q := genCliReq(rng, id, i, 0, 300)
+		q.Method, q.Body, q.BodyMode = "GET", nil, 0
+		q.Status, q.Interim, q.HeadCL, q.Prio = 200, 0, -1, false
+		q.RespTrail, q.SplitSeed, q.TrailSplit, q.RespSizeUpd = nil, nil, nil, nil
+		// a small set of shared (name, value) pairs: the first response that carries one inserts it, the later ones index it
+		q.RespFields = []F{{Name: "x-rtag", Value: q.Tag}, {Name: "x-shared", Value: fmt.Sprintf("value-%d", rng.Intn(3))}, {Name: "x-owner", Value: fmt.Sprintf("owner-%d", i%3)}}
+		q.Choices = []hpackref.Choice{{Rep: hpackref.RepIndexed, NameIndex: true}}
+		reqs[i] = q
+		if i > 0 && rng.Intn(2) == 0 {
+			cancelled[i] = true
+		}
+	}
+	replay := map[string]any{"family": "cancelled-callers", "requests": k, "cancelled": len(cancelled)}
+	failed := false
+	fail := func(rule, detail string) {
+		if !failed {
+			r.Fail("C02."+rule, id, detail, nil, replay)
+		}
+		failed = true
+	}
+	res := rt.RunBubble(t, id, 60*time.Second, func() {
+		e := rt.NewClientEnv(id, rt.ClientOpts{PeerSettings: []wire.Setting{{ID: 4, Val: 1 << 20}}})
+		if e.HandshakeErr != nil {
+			fail("handshake", e.HandshakeErr.Error())
+			return
+		}
+		calls := make([]*rt.Call, k)
+		for i, q := range reqs {
+			calls[i] = e.Do(q.Tag, q.build)
+			rt.Wait()
+		}
+		streamOf := map[string]uint32{}
+		for _, s := range e.RequestsSeen() {
+			tag, _ := s.Get("x-vtag")
+			streamOf[tag] = s.Stream
+		}
+		if len(streamOf) != k {
+			fail("request-missing", fmt.Sprintf("%d requests issued, %d arrived", k, len(streamOf)))
+			e.Finish()
+			return
+		}
+		for i := range reqs {
+			if cancelled[i] {
+				e.C.Cancel(calls[i].Ctx)
+			}
+		}
+		rt.Wait()
+		// the answers, cancelled requests first or mixed in: encoded in wire order, so that later blocks index what earlier
+		// ones inserted
+		order := rng.Perm(k)
+		if rng.Intn(2) == 0 {
+			var first, rest []int
+			for _, i := range order {
+				if cancelled[i] {
+					first = append(first, i)
+				} else {
+					rest = append(rest, i)
+				}
+			}
+			order = append(first, rest...)
+		}
+		for _, i := range order {
+			q := reqs[i]
+			sid := streamOf[q.Tag]
+			out := q.respHeaderBytes(e.P, sid)
+			for _, f := range q.respData(sid) {
+				out = append(out, f...)
+			}
+			e.P.Write(out)
+			if rng.Intn(2) == 0 {
+				rt.Wait()
+			}
+		}
+		rt.Wait()
+		for i, q := range reqs {
+			if cancelled[i] {
+				continue
+			}
+			if d := q.checkDelivered(calls[i]); d != "" {
+				fail("response-mismatch", fmt.Sprintf("caller of %s (stream %d; %d other requests had been cancelled by their callers and were answered all the same): %s", q.Tag, streamOf[q.Tag], len(cancelled), d))
+			}
+		}
+		if le := e.C.LastErr(); le != nil && !failed {
+			fail("connection-lost", fmt.Sprintf("the connection ended with %v after answers to requests their callers had cancelled", le))
+		}
+		r.Inc("answers_to_cancelled_requests", int64(len(cancelled)))
+		e.Finish()
+	})
+	c01Outcome(r, id, res, nil, replay, "C02")
+	r.Eval(vf.Hash("cancelled", k, len(cancelled)), true)
 }
